@@ -999,7 +999,7 @@ def exploration(chk, tier, with_model):
                 ex.record(case, {"kind": case["kind"], "outcome": res["outcome"], "bad": [(key, desc)],
                                  "kinds": [], "fmt": None})
     first = load_corpus() + testdata_cases() + gen.boundary_cases()
-    n = 1500 if tier == "quick" else 6000
+    n = 1200 if tier == "quick" else 6000
     cases = first + [gen.pick(r) for _ in range(n)]
     t0 = time.time()
     ex.run(cases, procs=4)
